@@ -69,7 +69,19 @@ Definition run_total (args : list str) : str :=
   ++ bar ++ (match parse_tags s with Panic => lit_PANIC | Ok m => show_tagmap (fun v => v) (Some m) end)
   ++ bar ++ (match wparse_source s with Panic => lit_PANIC | Ok x => show_src (Some x) end).
 
+(* codec.decode (connected route): the handlers receive ParseEvent(line); a nil result ends
+   the connection with ErrParseEvent *)
+Definition lit_event : str := Eval vm_compute in bs "event:".
+Definition lit_closed : str := Eval vm_compute in bs "closed:ErrParseEvent".
+Definition run_decode (args : list str) : str :=
+  match parse_event (c01_arg args 0) with
+  | Panic => lit_PANIC
+  | Ok None => lit_closed
+  | Ok (Some e) => lit_event ++ show_wevent e
+  end.
+
 Definition run_C02 (suite : str) (args : list str) : option str :=
   if streqb suite (bs "grammar.lines") then Some (run_grammar args)
   else if streqb suite (bs "codec.total") then Some (run_total args)
+  else if streqb suite (bs "codec.decode") then Some (run_decode args)
   else None.
